@@ -8,6 +8,7 @@ AB(g, l)         == [op |-> "add_blank", g |-> g, label |-> l]
 DG(g)            == [op |-> "del_graph", g |-> g]
 DA               == [op |-> "del_all"]
 EX(g)            == [op |-> "extract", g |-> g]
+DN(g, l)         == [op |-> "del_node", g |-> g, label |-> l]
 
 ScriptsDef ==
     CASE Scenario = 1 -> [t \in {1, 2} |-> IF t = 1 THEN <<AG("g1", <<"a", "b">>, 0), AB("g1", "c")>>
@@ -24,7 +25,14 @@ ScriptsDef ==
                                                      ELSE <<EX("g1"), AB("g1", "e"), AD("g1", <<"f", "g">>), EX("g1")>>]
       [] Scenario = 6 -> [t \in {1} |-> <<AG("g1", <<"a", "b">>, 0), AG("g1", <<"x">>, 1), AG("g1", <<"c">>, 0), AD("g1", <<"d">>),
                                           AD("g2", <<"e">>), EX("g1"), EX("g9"), AB("g1", "f"), AB("g3", "h"), DG("g1"), DG("g9"),
-                                          AG("g1", <<"i">>, 0), DA, AG("g1", <<"j", "k">>, 2), EX("g1")>>]
+                                          AG("g1", <<"i">>, 0), DA, AG("g1", <<"j", "k">>, 2), EX("g1"),
+                                          \* identifiers after node deletions (first, middle, last, missing node)
+                                          AG("g1", <<"a", "b", "c", "d">>, 0), DN("g1", "a"), AB("g1", "n1"), DN("g1", "c"), DN("g1", "zz"),
+                                          AB("g1", "n2"), EX("g1"), DN("g1", "n2"), AB("g1", "n3"), AD("g1", <<"p", "q">>), DN("g1", "p"),
+                                          AB("g1", "n4"), AB("g2", "m1"), DN("g2", "m1"), AB("g2", "m2"), EX("g1"), EX("g2")>>]
+      \* node deletions racing with additions to the same and to another graph
+      [] Scenario = 7 -> [t \in {1, 2} |-> IF t = 1 THEN <<AG("g1", <<"a", "b", "c">>, 0), DN("g1", "a"), AB("g1", "d")>>
+                                                     ELSE <<AB("g2", "x"), AB("g1", "e"), DN("g2", "x"), AB("g2", "y")>>]
 
 \* hand the scenario to the schedule explorer (harness/sched.py) - the scripts exist only here
 EmitScenario == PrintT(ToJson([scenario |-> Scenario, scripts |-> [t \in DOMAIN ScriptsDef |-> ScriptsDef[t]]]))
